@@ -333,13 +333,14 @@ def responder_case(ck, rng, i, forced=None):
         ck.count('responder.refused_although_possible')      # allowed for partial overlaps; counted
 
 
-def initiator_case(ck, rng, vi):
+def initiator_case(ck, rng, vi, any_proto=False):
     mode = 'transport' if vi % 2 else 'tunnel'
-    kw = dict(mode=mode, ip_proto='tcp', a_port=0, b_port=23)
+    # (second pass: an entry that combines protocol ANY with a port, which the daemon installs as written: the port is part of the offer all the same)
+    kw = dict(mode=mode, ip_proto='any' if any_proto else 'tcp', a_port=0, b_port=443 if any_proto else 23)
     if mode == 'tunnel':
         kw.update(a_subnet='10.1.0.0/24', b_subnet='10.2.0.0/24')
     sim, a, b = S.make_pair(ck.seed * 17 + vi, **kw)
-    sim.case = {'family': 'initiator', 'mode': mode}
+    sim.case = {'family': 'initiator', 'mode': mode, 'entry_protocol': kw['ip_proto'], 'entry_port': kw['b_port']}
     sim.acquire(a, 0)
     req = sim.net.pop(0).data
     p = party.RefParty(S.B4, S.A4, rng)
@@ -370,6 +371,8 @@ def initiator_case(ck, rng, vi):
         return s
     variants = [('honest-policy-selectors', big_i, big_r, None, True), ('honest-narrowed-to-the-acquire', otsi[0], otsr[0], None, True)]
     for what in ('addr', 'addr-hi', 'port', 'proto', 'other-proto', 'all'):
+        if any_proto and what in ('proto', 'other-proto'):
+            continue            # against an offer of protocol ANY, naming a protocol narrows: not a widening (either outcome is the responder's right)
         for side in ('tsi', 'tsr', 'both'):
             wi = wide(big_i, what) if side in ('tsi', 'both') else big_i
             wr = wide(big_r, what) if side in ('tsr', 'both') else big_r
@@ -395,6 +398,8 @@ def initiator_case(ck, rng, vi):
     inst = c02.newsa_count(a) - n0
     ck.count('initiator.variants')
     ck.seen('initiator.labels', (label, mode))
+    if any_proto:
+        ck.count('initiator.variants_on_an_any_protocol_entry_with_a_port')
     ck.nontrivial(('initiator', mode, label, inst))
     if ok == 'kernel':
         # installed or refused, both fine; but nothing wider than the offer may reach the kernel
@@ -651,6 +656,7 @@ def run(ck):
         for vi in range(72):
             if ck.mine(vi + rep):
                 initiator_case(ck, ck.rng('init', vi, rep), vi)
+                initiator_case(ck, ck.rng('init-any', vi, rep), vi, any_proto=True)
     for i in range(40 if not thorough else 4000):
         if ck.mine(i):
             rekey_case(ck, ck.rng('rekey', i), i)
